@@ -11,6 +11,8 @@ Exit status of check: 0 held on everything explored (KNOWN-FINDING lines allowed
 (with a "VIOLATION property=<id> replay=<path>" line), 2 machinery fault (nothing it says is a verdict).
 """
 import argparse
+import faulthandler
+import signal
 import json
 import os
 import sys
@@ -160,6 +162,7 @@ def cmd_selftest(args):
 
 
 def main():
+    faulthandler.register(signal.SIGUSR1, all_threads=True)
     ap = argparse.ArgumentParser()
     sub = ap.add_subparsers(dest="cmd")
     sub.add_parser("setup")
